@@ -269,6 +269,8 @@ func (o c11Op) String() string {
 		return fmt.Sprintf("P(i%+d,b%+d)", o.dIdx, o.dBlk)
 	case "D":
 		return fmt.Sprintf("D(%d)", o.dIdx)
+	case "R":
+		return "R"
 	}
 	return fmt.Sprintf("T(%v)", o.dTime)
 }
@@ -284,6 +286,7 @@ var c11Alphabet = func() []c11Op {
 		ops = append(ops, c11Op{kind: "D", dIdx: d})
 	}
 	ops = append(ops, c11Op{kind: "T", dTime: 4 * time.Second}, c11Op{kind: "T", dTime: 10 * time.Second})
+	ops = append(ops, c11Op{kind: "R"}) // the last accepted proposal is delivered again, byte for byte
 	return ops
 }()
 
@@ -301,6 +304,12 @@ func TestC11Exhaustive(t *testing.T) {
 		t.Fatal(r.Err)
 	}
 	count, firstOp := 0, 0
+	type lastProp struct {
+		idx, l2 uint64
+		root    [32]byte
+		ok      bool
+	}
+	var last lastProp
 	var dfs func(ctx sdk.Context, model []c11Out, path []c11Op, d int)
 	check := func(ctx sdk.Context, model []c11Out, path []c11Op) {
 		e2 := *e
@@ -336,7 +345,9 @@ func TestC11Exhaustive(t *testing.T) {
 		if d == depth {
 			return
 		}
+		entryLast := last
 		for oi, op := range c11Alphabet {
+			last = entryLast // what was the last accepted proposal on the path leading here
 			if d == 0 {
 				firstOp = oi
 			}
@@ -375,6 +386,19 @@ func TestC11Exhaustive(t *testing.T) {
 				}
 				if r.OK() {
 					nmodel = append(nmodel, c11Out{l2: l2, at: cctx.BlockTime(), root: root, h: cctx.BlockHeight()})
+					last = lastProp{idx: idx, l2: l2, root: root, ok: true}
+				}
+			case "R":
+				if !last.ok {
+					continue
+				}
+				r := e2.Deliver(ophosttypes.NewMsgProposeOutput(prop.Str, 1, last.idx, last.l2, last.root[:]))
+				want := last.idx == next && (next == 1 || last.l2 > prev)
+				if r.OK() != want {
+					caseFail(t, fmt.Sprint(npath), "exact replay of proposal(index %d, l2 %d) with next=%d prev=%d: accepted=%v want %v (%v)", last.idx, last.l2, next, prev, r.OK(), want, r.Err)
+				}
+				if r.OK() {
+					nmodel = append(nmodel, c11Out{l2: last.l2, at: cctx.BlockTime(), root: last.root, h: cctx.BlockHeight()})
 				}
 			case "D":
 				idx := []uint64{1, next - 1, next}[op.dIdx]
@@ -412,6 +436,7 @@ func TestC11Exhaustive(t *testing.T) {
 			}
 			dfs(cctx, nmodel, npath, d+1)
 		}
+		last = entryLast
 	}
 	dfs(e.Ctx, nil, nil, 0)
 	rec.ExhaustiveSubspace(fmt.Sprintf("all propose/delete/advance sequences of depth %d over an alphabet of %d operations (index in {next-1,next,next+1}, block in {prev,prev+1}, delete of {1,next-1,next}, time steps below and at the period) on one bridge", depth, len(c11Alphabet)))
